@@ -51,7 +51,7 @@ enum { CL_START_BLOCKED, CL_STOP_BLOCKED, CL_UNBLOCK_PENDING, CL_RESUMED, CL_STA
        CL_FREE_BLOCKERS, CL_FREE_STARTED, CL_FIRED, CL_FIRE_INACTIVE,
        CL_CB_ACTION, CL_CB_STOP, CL_CB_BALLOC, CL_CB_BFREE, CL_CB_FREE, CL_CB_RELEASE, CL_TOP_RELEASE,
        CL_LIFE2, CL_RECYCLED, CL_THREE, CL_NONLIFO, CL_NO_OWNER,
-       CL_T_IDLER, CL_T_TIMER, CL_T_FD_READ, CL_T_FD_WRITE, CL_T_SIGNAL, CL_EXPIRED, CL_SKIPPED_DOMAIN };
+       CL_T_IDLER, CL_T_TIMER, CL_T_FD_READ, CL_T_FD_WRITE, CL_T_SIGNAL, CL_EXPIRED, CL_SKIPPED_DOMAIN, CL_INTERLOPER };
 static const char *const class_names[] = {
     "start_while_blocked", "stop_while_blocked", "unblocked_after_pending_change", "resumed_on_unblock",
     "stays_stopped_on_unblock", "restart_unblocked", "restart_blocked", "set_status_while_active",
@@ -59,7 +59,8 @@ static const char *const class_names[] = {
     "fire_attempt_while_inactive", "cb_reentrant_action", "cb_stop", "cb_blocker_alloc", "cb_blocker_free",
     "cb_free_own_pump", "cb_owner_release", "toplevel_owner_release", "second_lifetime", "pool_recycled_pump",
     "three_blockers", "blocker_free_non_lifo", "no_owner_refcount", "type_idler", "type_timer",
-    "type_fd_read", "type_fd_write", "type_signal", "timer_expired_state", "restart_outside_domain_skipped", NULL };
+    "type_fd_read", "type_fd_write", "type_signal", "timer_expired_state", "restart_outside_domain_skipped",
+    "action_by_another_watcher_while_event_pending", NULL };
 
 struct c13;
 struct c13_blk { struct c13 *c; struct upump_blocker *b; bool out; int notified; unsigned seq; };
@@ -71,7 +72,7 @@ struct c13 {
     unsigned flags;
     int ret;
     uint64_t hash;
-    uint32_t cls;
+    uint64_t cls;
     /* configuration */
     int pump_pool, blk_pool;
     int type, variant;
@@ -107,7 +108,7 @@ struct c13 {
 #define ACTIVE(c) ((c)->live && (c)->started && (c)->nb == 0)
 #define R(...) do { if (c->render) vp_render(c->rep, __VA_ARGS__); } while (0)
 #define FAIL(key, ...) do { if (!c->ret) c->ret = vp_fail(c->rep, key, __VA_ARGS__); } while (0)
-#define CLS(bit) (c->cls |= 1u << (bit))
+#define CLS(bit) (c->cls |= 1ull << (bit))
 
 /* ---- back-end interface (defined by the executor) ---- */
 static struct upump *be_alloc_pump(struct c13 *c);
@@ -379,6 +380,25 @@ static void c13_after_dispatch(struct c13 *c)
     }
 }
 
+/* one tape-chosen action on the pump: run inside the pump's own callback, or (ev back-end) by another watcher of the same
+ * loop iteration while the pump's event is already pending */
+static void c13_scripted_action(struct c13 *c, uint8_t a)
+{
+    unsigned act = a % 8;
+    /* bias: a callback that has just blocked its own pump often unblocks it again (sink drained at once) */
+    if (c->nb > 0 && (a / 8) % 4 == 3) act = 3;
+    switch (act) {
+    case 0: c13_op_stop(c); break;
+    case 1: c13_op_start(c); break;
+    case 2: c13_op_balloc(c); break;
+    case 3: c13_op_bfree(c, a / 8); break;
+    case 4: c13_op_set_status(c, (a / 8) & 1); break;
+    case 5: c13_op_restart(c); break;
+    case 6: c13_op_free(c); break;
+    default: c13_op_release(c); break;
+    }
+}
+
 /* ---- the pump's callback: checks, then tape-driven re-entrant actions ---- */
 static struct c13 *c13_g;   /* the case being run (a dangling pump must not be dereferenced to find it) */
 static void c13_pump_cb(struct upump *upump)
@@ -400,22 +420,8 @@ static void c13_pump_cb(struct upump *upump)
     int n = c->nscript;
     c->nscript = 0;
     c->in_cb = true;
-    for (int i = 0; i < n && c->live && !c->ret; i++) {
-        uint8_t a = c->script[i];
-        unsigned act = a % 8;
-        /* bias: a callback that has just blocked its own pump often unblocks it again (sink drained at once) */
-        if (c->nb > 0 && (a / 8) % 4 == 3) act = 3;
-        switch (act) {
-        case 0: c13_op_stop(c); break;
-        case 1: c13_op_start(c); break;
-        case 2: c13_op_balloc(c); break;
-        case 3: c13_op_bfree(c, a / 8); break;
-        case 4: c13_op_set_status(c, (a / 8) & 1); break;
-        case 5: c13_op_restart(c); break;
-        case 6: c13_op_free(c); break;
-        default: c13_op_release(c); break;
-        }
-    }
+    for (int i = 0; i < n && c->live && !c->ret; i++)
+        c13_scripted_action(c, c->script[i]);
     c->in_cb = false;
 }
 
